@@ -611,6 +611,8 @@ func (m *Model) prelude() string {
 (assert (forall ((s Str) (a Int) (b Int)) (! (=> (and (<= 0 a) (<= a b) (<= b (slen s))) (= (slen (ssub s a b)) (- b a))) :pattern ((ssub s a b)))))
 (assert (forall ((s Str) (a Int) (b Int) (k Int)) (! (=> (and (<= 0 a) (<= a b) (<= b (slen s)) (<= 0 k) (< k (- b a))) (= (sat (ssub s a b) k) (sat s (+ a k)))) :pattern ((sat (ssub s a b) k)))))
 (assert (forall ((s Str)) (! (= (ssub s 0 (slen s)) s) :pattern ((ssub s 0 (slen s))))))
+(assert (forall ((s Str) (a Int)) (! (= (ssub s a a) sempty) :pattern ((ssub s a a)))))
+(assert (forall ((s Str) (b Int)) (! (=> (and (<= 0 b) (< b (slen s))) (= (ssub s 0 (+ b 1)) (scat (ssub s 0 b) (sbyte (sat s b))))) :pattern ((ssub s 0 (+ b 1))))))
 (assert (forall ((s Str) (t Str)) (! (= (slen (scat s t)) (+ (slen s) (slen t))) :pattern ((scat s t)))))
 (assert (forall ((s Str) (t Str) (k Int)) (! (=> (and (<= 0 k) (< k (+ (slen s) (slen t)))) (= (sat (scat s t) k) (ite (< k (slen s)) (sat s k) (sat t (- k (slen s)))))) :pattern ((sat (scat s t) k)))))
 (assert (forall ((s Str) (t Str)) (! (= (seq s t) (= s t)) :pattern ((seq s t)))))
